@@ -48,6 +48,34 @@ Options
 Sampling
   SIZE_SETTINGS(tier) list of {'do_all','do_all_exceptions',
                     'max_sampled_attempts'} ; SEEDS = [None, 0, 1]
+  REFINE_POOLS      [(name, pool, set sizes, extract kwargs)]: pools of ONE
+                    common shape mixing a-f-only / non-hex letters / digits /
+                    upper case / a non-ASCII digit / a trailing newline /
+                    extra-letter characters, so that the class chosen for a
+                    fragment is REFINED between passes of the sampled loop
+Structured families (generated from a grammar, not from all strings <= L)
+  FAMILY_CLASSES    {code: character pool}: h lower a-f, l lower non-hex,
+                    U upper, d digits, m mixed alnum (every char a new fine
+                    class), p one punctuation char, v varying punctuation
+  FAMILY_RUNS       (0, 1, 2, 3, 4, 6)   run lengths; 0 = fragment absent
+  family_shapes()   sequences of 1-3 classes (adjacent ones distinct)
+  family_string(shape, runs, variant)
+                    the string with runs[i] characters of class shape[i];
+                    `variant` shifts the characters taken from each pool
+  family_sets(tier='quick')
+                    example sets (lists of 2-4 strings) of one shape whose
+                    run lengths differ in one fragment (every pair, selected
+                    triples / quadruples of FAMILY_RUNS, same and shifted
+                    characters) or in all fragments together
+  two_shape_sets(tier='quick')
+                    2 or 4 strings instantiating two shapes that differ in
+                    the class of one fragment
+  tie_sets(tier='quick')
+                    quadruples (two strings of each of two shapes, so two
+                    expressions of equal frequency) in both orders, and the
+                    corresponding pairs
+  FAMILY_OPTION_POINTS  the 12 option points {default, tag, perl, grep,
+                    el='-', el='_-.'} x variableLengthFrags off/on
 """
 import itertools
 from collections import OrderedDict
@@ -270,3 +298,205 @@ def SIZE_SETTINGS(tier='quick'):
     vals = (1, 2) if tier == 'quick' else (1, 2, 3)
     return [{'do_all': a, 'do_all_exceptions': e, 'max_sampled_attempts': m}
             for a in vals for e in vals for m in vals]
+
+
+# Pools for class refinement between passes of the sampled loop (one common
+# shape each, so that all strings fall into one expression whose character
+# class depends on which strings have been sampled so far).
+REFINE_POOLS = [
+    ('hex', ['ab', 'cd', 'ef', 'zz', 'xy', '12', '34', 'AB'], (5, 6, 7), {}),
+    ('digit-nl', ['12', '34', '56', '\u0663\u0663', 'ab', 'gh\n'], (4, 5),
+     {}),
+    ('extra', ['ab', 'zz', '12', 'a_', '_b', 'AB'], (5, 6),
+     {'extra_letters': '_'}),
+]
+
+
+# ------------------------------------------------------ structured families
+
+FAMILY_CLASSES = OrderedDict([
+    ('h', 'abcdef'), ('l', 'gxyzpq'), ('U', 'ABQXZK'), ('d', '0123456789'),
+    ('m', 'a1B2c3'), ('p', '-'), ('v', '-./^'),
+])
+FAMILY_RUNS = (0, 1, 2, 3, 4, 6)
+_ALNUM = 'hlUdm'
+_PUNCT = 'pv'
+_BASE_RUN = 2
+_TRIPLES = [(0, 1, 2), (0, 2, 4), (0, 3, 6), (1, 2, 3), (1, 2, 4), (1, 3, 6),
+            (2, 3, 4), (2, 4, 6), (0, 1, 4), (0, 1, 6)]
+_QUADS = [(0, 1, 2, 3), (0, 2, 4, 6), (1, 2, 3, 4), (1, 3, 4, 6)]
+
+
+def family_shapes(max_len=3):
+    """1-fragment: every class; 2-fragment: adjacent classes distinct, no two
+    punctuation classes together, `m` not next to another alnum class;
+    3-fragment: alnum-punct-alnum, three alnum, punct-alnum-punct over the
+    alnum classes h l U d."""
+    out = [(c,) for c in FAMILY_CLASSES]
+    if max_len >= 2:
+        for a in FAMILY_CLASSES:
+            for b in FAMILY_CLASSES:
+                if a == b or (a in _PUNCT and b in _PUNCT):
+                    continue
+                if a in _ALNUM and b in _ALNUM and 'm' in (a, b):
+                    continue
+                out.append((a, b))
+    if max_len >= 3:
+        al = 'hlUd'
+        for a in al:
+            for q in _PUNCT:
+                for b in al:
+                    out.append((a, q, b))
+        for a in al:
+            for b in al:
+                for c in al:
+                    if a != b and b != c:
+                        out.append((a, b, c))
+        for q in _PUNCT:
+            for a in al:
+                for r in _PUNCT:
+                    out.append((q, a, r))
+    return out
+
+
+def family_string(shape, runs, variant=0):
+    parts = []
+    for (cls, run) in zip(shape, runs):
+        pool = FAMILY_CLASSES[cls]
+        if cls in _PUNCT:
+            parts.append(pool[variant % len(pool)] * run)
+        else:
+            off = variant * 2
+            parts.append(''.join(pool[(off + i) % len(pool)]
+                                 for i in range(run)))
+    return ''.join(parts)
+
+
+def _dedup(strings):
+    out = []
+    for x in strings:
+        if x not in out:
+            out.append(x)
+    return out
+
+
+def family_sets(tier='quick'):
+    """One shape, 2-4 strings.  (a) one fragment varies: its run lengths are
+    every pair (same and shifted characters), selected triples and
+    quadruples (shifted characters) of FAMILY_RUNS, the other fragments have
+    run length 2; (b) all fragments vary together, along the diagonal and
+    the anti-diagonal, for every pair of run lengths."""
+    seen = set()
+    pairs = list(itertools.combinations(FAMILY_RUNS, 2))
+    for shape in family_shapes():
+        k = len(shape)
+        for j in range(k):
+            for (tuples, modes) in ((pairs, ('same', 'shift')),
+                                    (_TRIPLES, ('shift',)),
+                                    (_QUADS, ('shift',))):
+                for t in tuples:
+                    for mode in modes:
+                        xs = []
+                        for (i, r) in enumerate(t):
+                            runs = [_BASE_RUN] * k
+                            runs[j] = r
+                            xs.append(family_string(
+                                shape, runs, i if mode == 'shift' else 0))
+                        xs = _dedup(xs)
+                        key = tuple(xs)
+                        if len(xs) >= 2 and key not in seen:
+                            seen.add(key)
+                            yield xs
+        if k >= 2:
+            for (r1, r2) in pairs:
+                for anti in (False, True):
+                    xs = []
+                    for (i, (ra, rb)) in enumerate(((r1, r2), (r2, r1))):
+                        runs = [ra] + [rb if anti else ra] * (k - 1)
+                        xs.append(family_string(shape, runs, i))
+                    xs = _dedup(xs)
+                    key = tuple(xs)
+                    if len(xs) >= 2 and key not in seen:
+                        seen.add(key)
+                        yield xs
+
+
+def _variants_of(shape, j):
+    """Shapes that differ from `shape` in the class of fragment j."""
+    for c in FAMILY_CLASSES:
+        if c == shape[j] or c == 'm' or shape[j] == 'm':
+            continue
+        if (c in _PUNCT) != (shape[j] in _PUNCT):
+            continue
+        t = shape[:j] + (c,) + shape[j + 1:]
+        if all(t[i] != t[i + 1] for i in range(len(t) - 1)):
+            yield t
+
+
+def two_shape_sets(tier='quick'):
+    """Two shapes differing in the class of one fragment (a-f letters vs
+    non-hex letters vs upper vs digits; fixed vs varying punctuation), one
+    or two strings of each, base run length 1, 2 or 3."""
+    seen = set()
+    for shape in family_shapes(2):
+        k = len(shape)
+        for j in range(k):
+            for other in _variants_of(shape, j):
+                for b in (1, 2, 3):
+                    one = [family_string(shape, [b] * k, 0),
+                           family_string(other, [b] * k, 1)]
+                    two = [family_string(shape, [b] * k, 0),
+                           family_string(shape, [b] * k, 1),
+                           family_string(other, [b] * k, 0),
+                           family_string(other, [b] * k, 1)]
+                    for xs in (one, two):
+                        xs = _dedup(xs)
+                        key = tuple(sorted(xs))
+                        if len(xs) >= 2 and key not in seen:
+                            seen.add(key)
+                            yield xs
+
+
+def tie_sets(tier='quick'):
+    """Two shapes S, T (1-2 fragments each, different class sequences), two
+    strings of each with run lengths 2 and 3 in the first or in the last
+    fragment and the same characters otherwise (so that the other fragments
+    are literal): two expressions of equal frequency.  Both orders (S first,
+    T first), and the pair made of the first string of each."""
+    shapes = family_shapes(2)
+    seen = set()
+    for (a, S) in enumerate(shapes):
+        for T in shapes[a + 1:]:
+            for where in (0, -1):
+                def two(shape):
+                    out = []
+                    for r in (2, 3):
+                        runs = [_BASE_RUN] * len(shape)
+                        runs[where] = r
+                        out.append(family_string(shape, runs, 0))
+                    return out
+                s2, t2 = two(S), two(T)
+                if len(set(s2 + t2)) < 4 or tuple(s2 + t2) in seen:
+                    continue
+                seen.add(tuple(s2 + t2))
+                yield s2 + t2
+                yield t2 + s2
+                if where == 0:
+                    yield [s2[0], t2[0]]
+                    yield [t2[0], s2[0]]
+
+
+def _family_points():
+    pts = []
+    for vlf in (False, True):
+        for extra in ({}, {'tag': True}, {'dialect': 'perl'},
+                      {'dialect': 'grep'}, {'extra_letters': '-'},
+                      {'extra_letters': '_-.'}):
+            o = dict(DEFAULT_OPTIONS)
+            o['variableLengthFrags'] = vlf
+            o.update(extra)
+            pts.append(o)
+    return pts
+
+
+FAMILY_OPTION_POINTS = _family_points()
